@@ -135,11 +135,15 @@ fn enabled(t: &Track, op: &Op, max_open: usize) -> bool {
 /// history is then one that follows earlier drawing)
 static BASE_DISTINCT: std::sync::atomic::AtomicBool = std::sync::atomic::AtomicBool::new(false);
 
+/// the long-lived target is made by `from_backing` (the fresh one always by `from_vec`)
+static BASE_BACKING: std::sync::atomic::AtomicBool = std::sync::atomic::AtomicBool::new(false);
+
 fn base_dst() -> Dst {
-    if BASE_DISTINCT.load(std::sync::atomic::Ordering::SeqCst) {
-        Dst::Distinct
+    let inner = if BASE_DISTINCT.load(std::sync::atomic::Ordering::SeqCst) { Dst::Distinct } else { Dst::Zero };
+    if BASE_BACKING.load(std::sync::atomic::Ordering::SeqCst) {
+        Dst::Backing(Box::new(inner))
     } else {
-        Dst::Zero
+        inner
     }
 }
 
@@ -451,7 +455,7 @@ fn explore(run: &Run, w: i32, h: i32, distinct: bool, unmerged_depth: usize, mer
     BASE_DISTINCT.store(distinct, std::sync::atomic::Ordering::SeqCst);
     let alpha = alphabet(w, h);
     let na = alpha.len();
-    run.bound(&format!("histories {}x{} from {}", w, h, if distinct { "the distinct pattern" } else { "a transparent surface" }), format!("alphabet of {} calls; all well-nested histories (at most 2 open pushes) of length <= {} without merging, then breadth-first to length {} merging states on (pixels of every buffer, transform, the transform the history established, clip stack, layer stack, rasteriser-idle flag, hidden path cursor)", na, unmerged_depth, merged_depth));
+    run.bound(&format!("histories {}x{} from {}{}", w, h, if distinct { "the distinct pattern" } else { "a transparent surface" }, if BASE_BACKING.load(std::sync::atomic::Ordering::SeqCst) { " (from_backing target)" } else { "" }), format!("alphabet of {} calls; all well-nested histories (at most 2 open pushes) of length <= {} without merging, then breadth-first to length {} merging states on (pixels of every buffer, transform, the transform the history established, clip stack, layer stack, rasteriser-idle flag, hidden path cursor)", na, unmerged_depth, merged_depth));
     // unmerged DFS, sharded by the first two ops
     run.par(na * na, |s, l| {
         fn rec(run: &Run, s: usize, l: &mut Local, w: i32, h: i32, alpha: &[Op], hist: &mut Vec<Op>, depth: usize) {
@@ -568,7 +572,7 @@ fn explore(run: &Run, w: i32, h: i32, distinct: bool, unmerged_depth: usize, mer
             l.traces += next.len() as u64;
             l.count("merged_bfs_distinct_states", next.len() as u64);
         });
-        run.bound(&format!("merged level {} ({}x{}{})", level, w, h, if distinct { ", distinct" } else { "" }), format!("{} distinct states", next.len()));
+        run.bound(&format!("merged level {} ({}x{}{}{})", level, w, h, if distinct { ", distinct" } else { "" }, if BASE_BACKING.load(std::sync::atomic::Ordering::SeqCst) { ", from_backing" } else { "" }), format!("{} distinct states", next.len()));
         frontier = next;
     }
 }
@@ -590,7 +594,15 @@ impl Check for C10 {
         if q {
             explore(run, 4, 4, false, 3, 4);
             explore(run, 4, 4, true, 3, 3);
+            // the long-lived target made by from_backing, the fresh one by from_vec: whatever a
+            // constructor sets up beyond the visible state differs between the two
+            BASE_BACKING.store(true, std::sync::atomic::Ordering::SeqCst);
+            explore(run, 4, 4, true, 2, 3);
+            BASE_BACKING.store(false, std::sync::atomic::Ordering::SeqCst);
         } else {
+            BASE_BACKING.store(true, std::sync::atomic::Ordering::SeqCst);
+            explore(run, 4, 4, true, 3, 4);
+            BASE_BACKING.store(false, std::sync::atomic::Ordering::SeqCst);
             explore(run, 4, 4, false, 4, 6);
             explore(run, 4, 4, true, 4, 5);
             explore(run, 3, 6, false, 3, 5);
@@ -610,7 +622,12 @@ impl Check for C10 {
         if s.ops.is_empty() {
             return Ok(None);
         }
-        BASE_DISTINCT.store(s.dst == Dst::Distinct, std::sync::atomic::Ordering::SeqCst);
+        let (inner, backing) = match &s.dst {
+            Dst::Backing(d) => ((**d).clone(), true),
+            d => (d.clone(), false),
+        };
+        BASE_DISTINCT.store(inner == Dst::Distinct, std::sync::atomic::Ordering::SeqCst);
+        BASE_BACKING.store(backing, std::sync::atomic::Ordering::SeqCst);
         // report the first transition of the history that fails
         for n in 1..=s.ops.len() {
             if let Err(v) = check_last(s.w, s.h, &s.ops[..n]) {
